@@ -36,6 +36,16 @@ func termAt(d *raft.VNode, i uint64) (uint64, bool) {
 	return 0, false
 }
 
+func voterIDs(c raft.VConfig) []uint64 {
+	var vs []uint64
+	for _, n := range c.Nodes {
+		if n.Voter {
+			vs = append(vs, n.ID)
+		}
+	}
+	return vs
+}
+
 func isVoterIn(c *raft.VConfig, id uint64) bool {
 	i := findNode(c, id)
 	return i >= 0 && c.Nodes[i].Voter
@@ -274,6 +284,10 @@ func (w *World) genAppend(d *raft.VNode) Op {
 	term := q.PrevLogTerm
 	conflict := w.chance(20)
 	cfg := d.Configs.Latest
+	if len(voterIDs(cfg)) == 0 {
+		// a correct cluster's log starts with a bootstrap configuration that has voters
+		cfg = w.BootstrapConfig()
+	}
 	for i := 0; i < n; i++ {
 		idx := q.PrevLogIndex + uint64(i) + 1
 		e := raft.VEntry{Index: idx, Typ: 2}
@@ -322,10 +336,30 @@ func (w *World) genAppend(d *raft.VNode) Op {
 	if d.Role == "leader" && q.Term == d.Term {
 		op.Adv = true
 	}
+	if q.Term == 0 {
+		op.Adv = true // terms start at 1
+	}
 	prevT := q.PrevLogTerm
+	// configuration entries the node holds, newest first: a second one is only ever appended
+	// after the first is committed, so a correct leader never truncates the older of two
+	var cfgIdx []uint64
+	for i := len(d.Log.Entries) - 1; i >= 0; i-- {
+		if d.Log.Entries[i].Typ == 6 {
+			cfgIdx = append(cfgIdx, d.Log.Entries[i].Index)
+		}
+	}
 	for _, e := range q.Entries {
 		if t, ok := termAt(d, e.Index); ok && e.Index <= d.CommitIndex && t != e.Term {
 			op.Adv = true
+		}
+		if t, ok := termAt(d, e.Index); ok && e.Index > d.Log.Prev && t != e.Term {
+			// conflict: everything from e.Index on is truncated
+			if t >= q.Term {
+				op.Adv = true // a leader never overwrites entries of its own (or a later) term
+			}
+			if len(cfgIdx) >= 2 && e.Index <= cfgIdx[1] {
+				op.Adv = true
+			}
 		}
 		if e.Term > q.Term || e.Term < prevT {
 			op.Adv = true
@@ -454,6 +488,9 @@ func (w *World) genInstall(d *raft.VNode) Op {
 	}
 	op := Op{Kind: "install", Install: q}
 	if d.Role == "leader" && q.Term == d.Term {
+		op.Adv = true
+	}
+	if q.Term == 0 || len(voterIDs(q.LastConfig)) == 0 {
 		op.Adv = true
 	}
 	if t, ok := termAt(d, q.LastIndex); ok && q.LastIndex > 0 {
